@@ -2097,9 +2097,10 @@ impl Archive {
                 (block_entry.file_size, block_entry.file_size as u64)
             };
 
-        // Adjust key for file size if needed
+        // Apply FIX_KEY modification (same formula as read_file)
         let key = if file_info.is_encrypted() && file_info.has_fix_key() {
-            key.wrapping_add(file_size_for_key)
+            let file_pos = (file_info.file_pos - self.archive_offset) as u32;
+            key.wrapping_add(file_pos) ^ file_size_for_key
         } else {
             key
         };
